@@ -9,7 +9,56 @@ NA = [
  ("C20", "finite option product x textual inputs observed through process exit status and stdout (clap, regex, file loading, catch_unwind, prettytable); outside what CBMC can execute, no scalar for the concolic engine; covering the product is enumeration, a different technique"),
 ]
 
+S_NOTE = ("Trusted: z3 5.1.0 / cvc5 / z3 4.8.12, rustc, nalgebra, sprs, num-bigint. Scalars are mathematical integers (BigInt semantics). One rayon worker: "
+          "thread schedules are not explored. Shapes/flags/strategies are enumerated configurations; entries are symbolic inside the stated box. "
+          "'exhaustive' in the evidence means the path tree of a configuration is complete (every branch flip explored or unsat), a bounded claim. ")
+
 CHECKS = {
+ "C07": dict(engine="S", category="model_checking",
+   technique="concolic symbolic execution of HomologyCalc (generic code instantiated with a symbolic integer scalar, also Z[i], Z[omega]); path classes discharged by z3 (SMT, NIA) under the solver-side precondition d2*d1=0; reference rank/torsion from minors and gcds of minors",
+   text="All entries of (d1,d2) are symbolic within a box and constrained by d2*d1=0 in the solver; every path class of HomologyCalc::calculate is run once on a solver-chosen member and its obligations (rank formula, torsion ~ gcd-of-minors factors, generators are cycles, boundaries map to 0 modulo torsion orders, coordinates of generators are the standard basis) are proven for the whole class by an unsat answer. Small shapes are explored to a complete path tree.",
+   note=S_NOTE + "Outside: F_p, Q[x], F_p[x] (concrete types), Q (no symbolic rational scalar), machine-width effects, middle dimension > 3.",
+   design="5/C07"),
+ "C08": dict(engine="S", category="model_checking",
+   technique="concolic symbolic execution of ChainReducer (reduce_all shallow+deep, reduce_at_spec for all 8 pivot strategies, tracked vectors) over a symbolic integer scalar; identities f d = d' f, d b = b d', f b = I, d'd' = 0 and homology preservation discharged per path class by z3",
+   text="Complexes of length 2-4 with symbolic entries in [-2,2] (units, zero and non-units all occur) under the solver-side constraint d∘d=0; each path class's chain-map / identity / homology-preservation obligations are proven by unsat answers.",
+   note=S_NOTE + "Single worker schedule only: 'for every thread schedule' is NOT decided. |x| of unit candidates is concretised by c_weight (classes split per value). Outside: Q, F_p, Z[H].",
+   design="5/C08"),
+ "C09": dict(engine="S", category="model_checking",
+   technique="concolic symbolic execution of snf (generic elimination path) over symbolic Z, Z[i], Z[omega] entries; certificates D=PAQ, PP^-1=I, QQ^-1=I, A=P^-1 D Q^-1, diagonal/normalised/divisibility chain discharged per path class by z3 (NIA with division lemmas)",
+   text="Every entry symbolic within a box; shapes up to 3x3 (quick <= 2x3), all-transform flags plus flag subsets. By uniqueness of the Smith form the certificates determine D up to units. The f64-free exact div_round kernel the quadratic rings depend on is decided separately at machine width by Kani (C15).",
+   note=S_NOTE + "Outside: entries beyond the box, shapes beyond 3x3, F_p, Q, polynomial rings. The LLL-preprocessed path (TypeId dispatch) is reached through hook H1 only in the lll variants.",
+   design="5/C09"),
+ "C10": dict(engine="S", category="model_checking",
+   technique="concolic symbolic execution of lll_hnf and lll over symbolic Z, Z[i], Z[omega] entries; H=PA, PP^-1=I, echelon form, normalised pivots, norm bound above pivots; LLL: B=PA, det P unit, size-reduced and Lovasz in fraction-free Gram form; discharged per path class by z3",
+   text="Rows independent (Gram determinant != 0) is a solver-side precondition for lll. Shapes up to 3x2/2x3 quick.",
+   note=S_NOTE + "Many LLL configurations stop on the time budget (high-degree NIA): evidence says which are complete. Outside: entries beyond the box (reduced to C15's kernel), m > 3.",
+   design="5/C10"),
+ "C11": dict(engine="S", category="model_checking",
+   technique="concolic symbolic execution of find_pivots / perms_by_pivots / permute (the real multithread code path on one worker) over symbolic entries: sparsity and unit patterns are decided by the solver; validity of the pivot list discharged per path class by z3",
+   text="SEQUENTIAL SCHEDULE ONLY. Entries symbolic in [-2,2] or [-1,1], shapes up to 3x3 (thorough 3x4), {Rows,Cols} x {One,AnyUnit,Weight(1),Weight(2)}: distinct rows/cols, pivot entries are units, triangular leading block (directly and through perms_by_pivots+permute).",
+   note=S_NOTE + "NOT decided: 'for every interleaving of worker threads' (no schedule-point hook installed; Kani has no threads and cannot pass AHashSet). A fault that needs a foreign commit inside the snapshot-to-write-lock window is invisible to this check.",
+   design="5/C11"),
+ "C12": dict(engine="S", category="model_checking",
+   technique="concolic symbolic execution of solve_triangular(_left,_vec), inv_triangular, Schur::from_partial_triangular and dir_sum_decomp over symbolic entries (unit diagonal as solver-side precondition u^2=1), with explicitly stored zeros; A X = Y, S = D - C A^-1 B, F M B = S, F B = I, block-sum identity discharged per class by z3",
+   text="Each kernel is called twice per run on the same worker so the thread-local scratch buffer must return to zero (debug assertions are compiled in). Upper and lower, r in 0..3, stored-zero variants.",
+   note=S_NOTE + "Outside: equality across thread counts; unit diagonals other than +-1 (Q, F_p, Z[i]); UnionFind is exercised only through dir_sum_decomp.",
+   design="5/C12"),
+ "C13": dict(engine="S", category="model_checking",
+   technique="concolic symbolic execution of SpMat/SpVec/Mat operations and Trans sequences over unbounded symbolic integer entries (loop-free in the scalars: classes are zero patterns), compared entrywise with a naive Vec<Vec<term>> reference; polynomial identities normalise syntactically, the rest is discharged by z3",
+   text="Entries are unbounded symbolic integers; shapes 0..3, all permutations, all sub-ranges, all split points, stored-zero variants (raw column construction and A-A), Trans built two ways, before and after reduce(), sub().",
+   note=S_NOTE + "Outside: F_p, Q; dimension > 3; structural equality of CSC storage.",
+   design="5/C13"),
+ "C14": dict(engine="K", category="model_checking",
+   technique="bounded model checking of the compiled Rust (Kani/CBMC, SAT): FF<3,5,7>, FF2 ring operations in every by-value/by-ref/assign form vs (a op b) mod p on all i32 inputs; Ratio<i32>::new canonical form; Ratio<i64>::cmp vs exact order at full width",
+   text="F_p and F2: all operands (any i32 / i64 input to the constructor), all operator forms. Ratio: canonical representative after new() on bounded operands, order on integers at full 64-bit width and on unit-fraction operands < 2^31.",
+   note="Trusted: Kani, CBMC, cadical. Ratio<i32> +,-,* from two symbolic operands did not finish under Kani and are outside this check's K part. BigInt itself is a dependency.",
+   design="5/C14"),
+ "C15": dict(engine="K", category="model_checking",
+   technique="bounded model checking of the compiled Rust (Kani/CBMC, SAT): div_round on i32 (10-bit symbolic x symbolic vs the definition; full width vs reference) and i64 (full-width dividend x constant divisors incl. extremes), unit API of i32/i64 incl. MIN, generic gcd/gcdx/lcm of euc_ring.rs instantiated at FF<3>, FF<5>, num-integer gcd/gcdx/lcm bounded",
+   text="One harness per concrete instantiation; unwinding assertions on.",
+   note="Trusted: Kani, CBMC, cadical. Symbolic x symbolic div_round beyond 10 bits did not finish (multiplier equivalence); a full-width symbolic divisor against constant dividends did not finish in 1200 s.",
+   design="5/C15"),
  "C17": dict(engine="K", category="model_checking",
    technique="bounded model checking of the compiled Rust (Kani/CBMC, SAT): one inductive step from an arbitrary valid (val,len) state per operation vs a u128/list specification, full 64-bit width",
    text="Every public BitSeq operation is executed once from an arbitrary valid state (all 2^64 values x all 65 lengths, symbolic arguments) and compared with the list-of-bits specification; out-of-capacity/out-of-range calls must not return. The SAT solver decides each harness for all inputs; unwinding assertions on (unwind 66-68 covers the 64-step loops). One inductive step from any valid state covers operation histories of any length because validity of the result is asserted.",
@@ -39,7 +88,7 @@ def main():
             "guard": "cfg(yui_verif)",
             "enable": "RUSTFLAGS='--cfg yui_verif' (set by the symx build in ./check; Kani harnesses need no hook)",
             "baseline_off_cmd": "cd /repo && cargo test --workspace --no-fail-fast --offline",
-            "source_commits": [],
+            "source_commits": ["af956f3", "031991a"],
             "add_only": True,
         },
         "engines": [
